@@ -30,6 +30,11 @@
 //!    `check_predicates_async` and `estimate_predicates_async`; verdict and total gas
 //!    (per-input gas for estimation) must equal the sequential functions (which are also
 //!    run on reused dirty memory).
+//!    A second, heap-reuse family (dirtiers ALOC 200 / ALOC 4096 writing ff..ff to every
+//!    word; probers ALOC 8+ALOC 300, ALOC 8+ALOC 5000, ALOC 300 reading every word of the
+//!    new allocation; a 4096-byte stack prober; ret 1) is run the same way with the pool
+//!    handing out fresh / dirtier-200-used / dirtier-4096-used / script-dirtied memory
+//!    (retained heap buffers of 256 B, 4 KiB, 64 KiB around which the probers re-allocate).
 //! 5. `limit` — all-true transactions under consensus parameters whose per-tx gas limit
 //!    sits at every boundary around (base + partial sums of the needed predicate gas) and
 //!    whose per-predicate limit sits around the single needs: sequential vs parallel
@@ -215,10 +220,10 @@ struct Env {
     chain: ChainId,
     base: AssetId,
     /// memory templates: 0 fresh, 1 dirtied by a predicate run, 2 dirtied by a script run
-    tpl: [MemoryInstance; 3],
+    tpl: Vec<MemoryInstance>,
 }
 
-const MEM_NAMES: [&str; 3] = ["fresh", "dirty-predicate", "dirty-script"];
+const MEM_NAMES: [&str; 5] = ["fresh", "dirty-predicate", "dirty-script", "after-heap-dirtier-200", "after-heap-dirtier-4096"];
 
 impl Env {
     fn new() -> Env {
@@ -231,11 +236,29 @@ impl Env {
             cpp,
             chain,
             base,
-            tpl: [MemoryInstance::new(), MemoryInstance::new(), MemoryInstance::new()],
+            tpl: (0..5).map(|_| MemoryInstance::new()).collect(),
         };
         env.tpl[1] = env.dirty_predicate_memory();
         env.tpl[2] = dirty_script_memory();
+        env.tpl[3] = env.heap_dirtied_memory(20);
+        env.tpl[4] = env.heap_dirtied_memory(21);
         env
+    }
+
+    /// Memory left behind by a heap-dirtier role (20: ALOC 200, 21: ALOC 4096, every word
+    /// of the allocation set to ff..ff): the retained heap buffer (256 / 4096 bytes) is
+    /// full of stale non-zero bytes.
+    fn heap_dirtied_memory(&self, role: u8) -> MemoryInstance {
+        let code: Vec<u8> = role_code(role, 0).into_iter().collect();
+        let input = pred_input(0, 0, Input::predicate_owner(&code), 100_000, code, vec![0; 8], self.base);
+        let tx = Transaction::script(0, vec![], vec![], Policies::new().with_max_fee(0), vec![input], vec![], vec![]);
+        let checked = tx.into_checked_basic(BlockHeight::new(0), &self.cp).expect("heap dirtier tx basic");
+        let mut mem = MemoryInstance::new();
+        // the verdict is irrelevant (GasMismatch): the predicate runs and dirties the heap
+        let _ = guard::catch_any(|| predicates::check_predicates(&checked, &self.cpp, &mut mem, &EmptyStorage, NotSupportedEcal));
+        let top = fuel_vm::consts::VM_MAX_RAM;
+        assert_eq!(mem.read(top - 8, 8u64).map(|b| b.to_vec()), Ok(vec![0xff; 8]), "heap-dirtied memory must hold stale bytes");
+        mem
     }
 
     /// Memory left behind by a real (accepted) predicate verification that wrote 0x01
@@ -392,11 +415,11 @@ impl ParallelExecutor for HExec {
 struct HPool<'a> {
     assign: Vec<u8>,
     next: AtomicUsize,
-    tpl: &'a [MemoryInstance; 3],
+    tpl: &'a [MemoryInstance],
 }
 
 impl<'a> HPool<'a> {
-    fn new(assign: &[u8], tpl: &'a [MemoryInstance; 3]) -> Self {
+    fn new(assign: &[u8], tpl: &'a [MemoryInstance]) -> Self {
         HPool {
             assign: assign.to_vec(),
             next: AtomicUsize::new(0),
@@ -532,7 +555,7 @@ struct ParRun {
 fn check_par(
     checked: &fuel_vm::checked_transaction::Checked<Script>,
     cpp: &CheckPredicateParams,
-    tpl: &[MemoryInstance; 3],
+    tpl: &[MemoryInstance],
     perm: &[usize],
     creation: bool,
     assign: &[u8],
@@ -564,7 +587,7 @@ fn check_par(
 fn estimate_par(
     tx: &Script,
     cpp: &CheckPredicateParams,
-    tpl: &[MemoryInstance; 3],
+    tpl: &[MemoryInstance],
     perm: &[usize],
     creation: bool,
     assign: &[u8],
@@ -1409,6 +1432,39 @@ fn role_code(role: u8, kind: u8) -> Vec<Instruction> {
         8 => vec![op::bal(R0, R0, R0)],
         9 => vec![op::noop(), op::ret(one)],
         10 => vec![op::noop(), op::noop(), op::noop(), op::ret(one)],
+        // heap-reuse family
+        20 | 21 => {
+            let n: u32 = if role == 20 { 200 } else { 4096 };
+            let mut c = vec![op::movi(R2, n), op::aloc(R2), op::not(R1, zero)];
+            c.extend((0..n / 8).map(|w| op::sw(hp, R1, w as u16)));
+            c.push(op::ret(one));
+            c
+        }
+        22 | 23 | 24 => {
+            let (first, second): (Option<u32>, u32) = match role {
+                22 => (Some(8), 300),
+                23 => (Some(8), 5000),
+                _ => (None, 300),
+            };
+            let mut c = vec![];
+            if let Some(a) = first {
+                c.extend([op::movi(R2, a), op::aloc(R2)]);
+            }
+            c.extend([op::movi(R2, second), op::aloc(R2)]);
+            for w in 0..second / 8 {
+                c.extend([op::lw(R1, hp, w as u16), op::or(R0, R0, R1)]);
+            }
+            c.extend([op::eq(R0, R0, zero), op::ret(R0)]);
+            c
+        }
+        25 => {
+            let mut c = vec![op::move_(R2, sp), op::cfei(4096)];
+            for w in 0..512u16 {
+                c.extend([op::lw(R1, R2, w), op::or(R0, R0, R1)]);
+            }
+            c.extend([op::eq(R0, R0, zero), op::ret(R0)]);
+            c
+        }
         _ => unreachable!(),
     }
 }
@@ -1444,15 +1500,32 @@ fn sched_txs(roles: &[u8], env: &Env) -> (Script, Script) {
     (mk(&gas), tx0)
 }
 
+const HEAP_ROLES: [&str; 6] = [
+    "heap dirtier: aloc 200; every word := ff..ff; ret 1",
+    "heap dirtier: aloc 4096; every word := ff..ff; ret 1",
+    "heap prober: aloc 8; aloc 300; true iff all 37 words of the new allocation are 0",
+    "heap prober: aloc 8; aloc 5000; true iff all 625 words of the new allocation are 0",
+    "heap prober: aloc 300; true iff all 37 words are 0",
+    "stack prober: cfei 4096; true iff all 512 words of the new frame are 0",
+];
+/// role ids of the heap-reuse family (plus role 0 = ret 1)
+const HEAP_FAMILY: [u8; 7] = [20, 21, 22, 23, 24, 25, 0];
+/// memory kinds handed out per family (indices into Env::tpl / MEM_NAMES)
+const FAMILY_MEMS: [&[u8]; 2] = [&[0, 1, 2], &[0, 3, 4, 2]];
+
 fn roles_text(roles: &[u8]) -> Vec<&'static str> {
-    roles.iter().map(|r| ROLES[*r as usize]).collect()
+    roles
+        .iter()
+        .map(|r| if *r >= 20 { HEAP_ROLES[*r as usize - 20] } else { ROLES[*r as usize] })
+        .collect()
 }
 
-fn sched_eval(roles: &[u8], env: &Env, ctx: &Ctx, acc: &mut Acc) {
+fn sched_eval(fam: usize, roles: &[u8], env: &Env, ctx: &Ctx, acc: &mut Acc) {
+    let mems = FAMILY_MEMS[fam];
     let n = roles.len();
     let (tx, tx0) = sched_txs(roles, env);
-    let case = json!({"part": "sched", "roles": roles});
-    let expect_ok = roles.iter().all(|r| *r <= 5);
+    let case = json!({"part": "sched", "fam": fam, "roles": roles});
+    let expect_ok = roles.iter().all(|r| *r <= 5 || *r >= 20);
     let seq = verify_seq(&tx, &env.cp, &env.cpp, MemoryInstance::new());
     acc.evals += 1;
     let base = format!("roles {:?}, declared gas {:?}", roles_text(roles), gas_vec(&tx));
@@ -1478,7 +1551,7 @@ fn sched_eval(roles: &[u8], env: &Env, ctx: &Ctx, acc: &mut Acc) {
     }
     acc.out(format!("sched:sequential={}", if seq.is_ok() { "Ok" } else { "Err" }));
     // sequential path on reused dirty memory
-    for k in 1..3 {
+    for k in mems[1..].iter().map(|k| *k as usize) {
         let v = verify_seq(&tx, &env.cp, &env.cpp, env.tpl[k].clone());
         acc.evals += 1;
         if let Some(w) = seq.agrees(&v) {
@@ -1490,7 +1563,7 @@ fn sched_eval(roles: &[u8], env: &Env, ctx: &Ctx, acc: &mut Acc) {
         }
     }
     let (eseq, eseq_gas) = estimate_seq(&tx0, &env.cpp, MemoryInstance::new());
-    for k in 1..3 {
+    for k in mems[1..].iter().map(|k| *k as usize) {
         let (v, g) = estimate_seq(&tx0, &env.cpp, env.tpl[k].clone());
         acc.evals += 1;
         if let Some(w) = eseq.agrees(&v).or(if eseq.is_ok() && g != eseq_gas { Some("gas") } else { None }) {
@@ -1506,12 +1579,12 @@ fn sched_eval(roles: &[u8], env: &Env, ctx: &Ctx, acc: &mut Acc) {
         .into_checked_basic(BlockHeight::new(0), &env.cp)
         .expect("basic checks passed above");
     let perms = space::permutations(n);
-    let assigns = space::Product::new(&vec![3u64; n]);
+    let assigns = space::Product::new(&vec![mems.len() as u64; n]);
     let mut distinct: HashSet<String> = HashSet::new();
     for perm in &perms {
         for creation in [false, true] {
             for ai in 0..assigns.size() {
-                let assign: Vec<u8> = assigns.digits(ai).into_iter().map(|d| d as u8).collect();
+                let assign: Vec<u8> = assigns.digits(ai).into_iter().map(|d| mems[d as usize]).collect();
                 let sched = || {
                     format!(
                         "run order {perm:?}, results returned in {} order, memory {:?}",
@@ -1581,11 +1654,11 @@ fn sched_eval(roles: &[u8], env: &Env, ctx: &Ctx, acc: &mut Acc) {
     acc.cnt("sched_transactions", 1);
     acc.out(format!("sched:distinct-outcomes-per-tx={}", distinct.len()));
     if seq.is_ok() {
-        acc.fps.insert(vcore::run::hash64(&("sched", roles)));
+        acc.fps.insert(vcore::run::hash64(&("sched", fam, roles)));
     } else {
         acc.fps.insert(vcore::run::hash64(&("sched-rejected", roles)));
     }
-    if n == 3 && roles == [2, 5, 3] {
+    if n == 3 && (roles == [2, 5, 3] || roles == [20, 22, 25]) {
         ctx.sample(json!({"part": "sched", "roles": roles_text(roles), "declared_gas": gas_vec(&tx), "sequential": format!("{seq:?}"),
                           "schedules": perms.len() * 2 * assigns.size() as usize, "estimate_sequential": eseq_gas}));
     }
@@ -1594,14 +1667,28 @@ fn sched_eval(roles: &[u8], env: &Env, ctx: &Ctx, acc: &mut Acc) {
 fn part_sched(ctx: &Ctx, env: &Env) {
     // all role sequences of length <= 3 over 12 roles; thorough adds length 4 over 6 roles
     let a = ROLES.len() as u64;
-    let mut fam: Vec<Vec<u8>> = (1..space::seq_count(a, 3))
-        .map(|i| space::seq_at(a, 3, i).into_iter().map(|d| d as u8).collect())
+    let mut fam: Vec<(usize, Vec<u8>)> = (1..space::seq_count(a, 3))
+        .map(|i| (0, space::seq_at(a, 3, i).into_iter().map(|d| d as u8).collect()))
         .collect();
     let four: [u8; 6] = [0, 1, 3, 5, 6, 9];
     if ctx.thorough() {
         let p = space::Product::new(&[6, 6, 6, 6]);
         for i in 0..p.size() {
-            fam.push(p.digits(i).into_iter().rev().map(|d| four[d as usize]).collect());
+            fam.push((0, p.digits(i).into_iter().rev().map(|d| four[d as usize]).collect()));
+        }
+    }
+    // heap-reuse family: all role sequences of length <= 3 over 7 roles (a dirtier before a
+    // prober in the same tx = sequential sharing; the pool hands dirtier-used memory to
+    // probers); thorough adds length 4 over the two dirtiers and the two two-step probers
+    let h = HEAP_FAMILY.len() as u64;
+    let n_orig = fam.len();
+    for i in 1..space::seq_count(h, 3) {
+        fam.push((1, space::seq_at(h, 3, i).into_iter().map(|d| HEAP_FAMILY[d as usize]).collect()));
+    }
+    if ctx.thorough() {
+        let p = space::Product::new(&[4, 4, 4, 4]);
+        for i in 0..p.size() {
+            fam.push((1, p.digits(i).into_iter().rev().map(|d| HEAP_FAMILY[d as usize]).collect()));
         }
     }
     let mut total = BTreeMap::new();
@@ -1616,7 +1703,7 @@ fn part_sched(ctx: &Ctx, env: &Env) {
                 acc.cnt("sched_skipped_out_of_time", 1);
                 return
             }
-            sched_eval(&fam[i as usize], env, ctx, acc)
+            sched_eval(fam[i as usize].0, &fam[i as usize].1, env, ctx, acc)
         },
         |acc| {
             capped |= acc.counters.contains_key("sched_skipped_out_of_time");
@@ -1630,8 +1717,11 @@ fn part_sched(ctx: &Ctx, env: &Env) {
         "sched",
         json!({"roles": ROLES, "input_kind_by_position": ["coin", "message-coin", "message-data", "coin"],
                "family": format!("all role sequences of length 1..=3 over 12 roles{}", if ctx.thorough() { " + all of length 4 over roles [0,1,3,5,6,9]" } else { "" }),
-               "transactions": fam.len(),
-               "per_tx": "n! run orders x {completion, creation} result order x 3^n memory assignments, for check_predicates_async and estimate_predicates_async",
+               "transactions": n_orig,
+               "heap_reuse_family": {"roles": HEAP_ROLES, "plus": "ret 1", "transactions": fam.len() - n_orig,
+                                     "family": format!("all role sequences of length 1..=3 over 7 roles{}", if ctx.thorough() { " + all of length 4 over the 2 dirtiers and the 2 two-step probers" } else { "" }),
+                                     "memory_kinds": ["fresh", "after-heap-dirtier-200", "after-heap-dirtier-4096", "dirty-script"]},
+               "per_tx": "n! run orders x {completion, creation} result order x k^n memory assignments (k = 3 / 4 memory kinds), for check_predicates_async and estimate_predicates_async; sequential functions also on every dirty memory kind",
                "memory_kinds": MEM_NAMES, "counters": total}),
     );
     ctx.set("info_seq_vs_par_estimation_verdict_sched", json!(info));
@@ -1892,7 +1982,7 @@ fn replay(case: &Value, ctx: &Ctx) {
             &mut acc,
         ),
         Some("pred") => pred_eval(&u8s(&case["prog"]), case["placement"].as_u64().unwrap() as usize, &env, ctx, &mut acc),
-        Some("sched") => sched_eval(&u8s(&case["roles"]), &env, ctx, &mut acc),
+        Some("sched") => sched_eval(case["fam"].as_u64().unwrap_or(0) as usize, &u8s(&case["roles"]), &env, ctx, &mut acc),
         Some("limit") => limit_eval(&u8s(&case["roles"]), case["extra"].as_u64().unwrap(), case["pp"].as_u64().unwrap(), &env, ctx, &mut acc),
         other => panic!("unknown part {other:?}"),
     }
